@@ -1,0 +1,18 @@
+//go:build verif
+
+package circuitbreaker
+
+type verifClock struct {
+	now func() int64
+}
+
+func (c *verifClock) CurrentUnixNano() int64 {
+	return c.now()
+}
+
+// VerifWithClock replaces the time source of the builder, and of breakers built from it, with now. Only available with
+// the verif build tag.
+func VerifWithClock[R any](builder CircuitBreakerBuilder[R], now func() int64) CircuitBreakerBuilder[R] {
+	builder.(*config[R]).clock = &verifClock{now: now}
+	return builder
+}
